@@ -38,7 +38,16 @@ Cases2All ==
      tp \in RowTemplates,
      fs \in {{k} : k \in Consts} \cup {{Cn(<<"foo", "a">>), Cn(<<"bar", "b">>)}, {Num(1), Str("a")}} }
 Cases2 == {x \in Cases2All : x.t1 # x.t1b}
-Cases == IF Family = "rows" THEN Cases2 ELSE Cases1
+\* undeclared predicates in a recursion cycle (their types are inferred while the cycle is being visited): the first
+\* one has a unit clause (constant unit) and gets a wider type from src through a later clause; a declared consumer
+\* joins both.  The inference visits predicates in lexical order, so each shape comes with both name orders.
+RecTemplates == {"mutual_ab", "mutual_ba", "mutual_ab_zdst", "mutual_ba_zdst", "selfrec", "chain3"}
+Cases3 ==
+  {[t1 |-> t1, t1b |-> <<>>, t2 |-> t2, t2b |-> <<>>, tpl |-> tp, facts |-> SetToSeq(fs), dstfact |-> <<>>, unit |-> u] :
+     t1 \in RowTypes \cup {T("/any")}, t2 \in RowTypes, tp \in RecTemplates,
+     fs \in {{k} : k \in {Num(1), Str("a"), Cn(<<"foo", "a">>), Cn(<<"bar", "b">>), Pair(Num(1), Str("a")), List(<<Num(1), Num(0)>>)}},
+     u \in {Num(1), Str("a"), Cn(<<"foo", "a">>), Cn(<<"bar", "b">>), Pair(Num(1), Str("a"))} }
+Cases == IF Family = "rows" THEN Cases2 ELSE IF Family = "recur" THEN Cases3 ELSE Cases1
 Init == c = <<>>
 Pick == c = <<>> /\ c' \in (IF Randomized THEN {RandomElement(Cases)} ELSE Cases)
 Next == Pick
